@@ -45,7 +45,7 @@ pub struct Hist {
 pub fn hist() -> impl Strategy<Value = Hist> {
     let spec = prop_oneof![
         3 => c14::pair().prop_map(|p| ProgSpec::Gen(Box::new(p))),
-        6 => (0u8..6, 0u8..4, any::<u16>()).prop_map(|(f, r, v)| ProgSpec::Shared(f, r, v)),
+        6 => (0u8..9, 0u8..4, any::<u16>()).prop_map(|(f, r, v)| ProgSpec::Shared(f, r, v)),
         1 => c11::raw_tree().prop_map(|mut t| { t.missing = None; ProgSpec::Tree(t) }),
     ];
     let op = prop_oneof![
@@ -65,7 +65,7 @@ pub enum Prog {
 /// The same shared name gets a different meaning in every role.
 pub fn shared_program(name: &str, family: u8, role: u8, v: u16) -> String {
     let v = v as u32 % 60000;
-    match (family % 6, role % 4) {
+    match (family % 9, role % 4) {
         (0, 0) => format!(".equ {} = {}\n.dw {}", name, v, name),
         (0, 1) => format!(".equ {} = {}\nldi r16, low({})", name.to_uppercase(), v + 1, name),
         (0, _) => format!(".dw {}", name),
@@ -84,6 +84,20 @@ pub fn shared_program(name: &str, family: u8, role: u8, v: u16) -> String {
         (4, _) => format!("mov {}, r1", name),
         (5, 0) => format!(".message \"{} {}\"\nnop", name, v),
         (5, 1) => format!(".warning \"{}\"\n.message \"second {}\"\n.dw {}", name, v, v),
+        // more operands than the ten documented parameters: whatever the result is, it is the same every time
+        (6, 0) => format!(".macro {}\n.db @10, @11, @1, @0\n.dw @9\n.endm\n{} 1, 2, 3, 4, 5, 6, 7, 8, 9, 10, 11, 12, 13", name, name),
+        (6, 1) => format!(".macro {}\n.db @12, @3\n.endm\n{} 1, 2, 3, 4, 5, 6, 7, 8, 9, 10, 11, 12, 13, 14\n{} 21, 22, 23, 24, 25, 26, 27, 28, 29, 30, 31, 32, 33", name, name, name),
+        (6, _) => format!(".macro {}\n.db @0, @1\n.endm\n{} {}, 2", name, name, v % 200),
+        // several faults at once: which one is reported must not vary
+        (7, 0) => format!("ldi r16, {}_a\nldi r17, {}_b\nldi r18, {}_c\n.dw {}_d", name, name, name, name),
+        (7, 1) => format!("{}: nop\n{}: nop\n{}_x: nop\n{}_x: nop\nrjmp {}_y", name, name, name, name, name),
+        (7, 2) => format!(".equ {} = {}_p + {}_q\n.dw {}\n.dw {}_r", name, name, name, name, name),
+        (7, _) => format!("{}_m1 r1\n{}_m2 r2\n{}_m3", name, name, name),
+        // failing builds that go deep before they fail, next to valid builds that need some depth
+        (8, 0) => format!(".equ {} = {}_2\n.equ {}_2 = {}\n.dw {}", name, name, name, name, name),
+        (8, 1) => (0..12).map(|i| format!(".equ {}_{} = {}_{} + 1\n", name, i, name, i + 1)).collect::<String>() + &format!(".equ {}_12 = {}\n.dw {}_0", name, v % 1000, name),
+        (8, 2) => format!(".macro {}\n{}\n.endm\n{}", name, name, name),
+        (8, _) => (0..6).map(|i| format!(".macro {}_{}\n{}\n.endm\n", name, i, if i == 0 { "nop".to_string() } else { format!("{}_{}", name, i - 1) })).collect::<String>() + &format!("{}_5\n{}_5", name, name),
         (_, _) => "nop".to_string(),
     }
 }
